@@ -170,7 +170,10 @@ pub fn gen_config(rng: &mut Rng, profile: Profile) -> Config {
             }
         }
     };
+    let giant = matches!(profile, Capacity | Safety | Admission | Lru) && rng.chance(1, 14);
+    let cap = if giant { Some(*rng.pick(&[3u64 << 32, 5u64 << 31, (1u64 << 33) + 1])) } else { cap };
     let weigher = match profile {
+        _ if giant => true,
         Capacity => rng.chance(4, 5),
         Fault => rng.chance(3, 4),
         _ => rng.chance(1, 2),
@@ -251,6 +254,11 @@ impl Gen {
     fn weight(&mut self, cfg: &Config) -> u32 {
         if !cfg.weigher {
             return 1;
+        }
+        if cfg.cap.map(|c| c > u32::MAX as u64).unwrap_or(false) {
+            // giant capacity: a few entries of gigabytes each fill it; the victims of one admission
+            // together weigh more than u32::MAX
+            return *self.rng.pick(&[1u32 << 30, 1 << 31, (1 << 31) + 7, u32::MAX, u32::MAX - 1, 3 << 29, 1, 0]);
         }
         let cap = cfg.cap.unwrap_or(4).min(u32::MAX as u64 - 1) as u32;
         match self.rng.below(20) {
@@ -486,6 +494,33 @@ impl Gen {
         for k in 0..n {
             let vid = self.vid();
             self.script.push_back(Op::Insert { k, vid, w: 1 });
+        }
+        if self.rng.chance(1, 3) {
+            // invalidate_all over more admitted entries than one maintenance run purges (100 / 500), then
+            // maintenance runs, probes from both ends and a few re-insertions
+            if cfg.kind == Kind::Sync {
+                self.script.push_back(Op::Sync);
+            }
+            self.script.push_back(Op::Advance { ns: 1 + self.rng.below(3) });
+            self.script.push_back(Op::InvalidateAll);
+            for round in 0..self.rng.range(1, 4) {
+                if cfg.kind == Kind::Sync {
+                    self.script.push_back(Op::Sync);
+                }
+                for _ in 0..3 {
+                    let k = if self.rng.chance(1, 2) { n - 1 - self.rng.below(20.min(n as u64)) as u32 } else { self.rng.below(n as u64) as u32 };
+                    self.script.push_back(match self.rng.below(3) {
+                        0 => Op::Get { k },
+                        1 => Op::Contains { k },
+                        _ => Op::Iter,
+                    });
+                }
+                if round == 1 {
+                    let vid = self.vid();
+                    self.script.push_back(Op::Insert { k: self.rng.below(n as u64) as u32, vid, w: 1 });
+                }
+            }
+            return;
         }
         if self.rng.chance(1, 3) {
             // refresh a few so that deadlines are staggered
